@@ -3,15 +3,25 @@ import copy, json, os
 from vlib import MachineryError, REPO
 
 ASSUMPTIONS = [
-    'file names f1 (exists before the run), f2, f3 in a fresh directory; commands `cat` and `sh -c \'cat; exit 3\'`; payload of '
-    'the k-th action is the k-th letter',
+    'file names f1 (exists before the run), f2, f3 in a fresh directory; commands `cat` and `sh -c \'cat; exit 3\'` (read their '
+    'input and echo it), `sh -c \'exec 0<&-; ...; exit 3\'` (closes its input at once, output form only) and `cat f1 2>/dev/null` '
+    '(system() only); payload of the k-th action of a run is the k-th letter',
     'not generated because the statement leaves the outcome open: output to "-", /dev/stdout, /dev/stderr under NoFileWrites; a file '
     'operand that does not exist or is open for writing; using one name in both directions at once is generated but its error '
     'outcome is not judged',
     'results of getline from a command / system() are recorded but not judged; getline from stdin is judged only while no child '
     'process has been given the run\'s stdin',
     'Config.Output is a mutex-protected buffer (also behind a bufio.Writer when no child process runs)',
+    'a command that never reads its input: the harness waits (native function, up to 5 s) until the command has closed its '
+    'standard input before the program goes on, so that what the program flushes later certainly meets a closed pipe; whether '
+    'such a run ends with an error, and what the interpreter prints on stderr about it, is not judged (close() must still '
+    'wait and report the exit status); a second print to such a command after a flush has lost bytes is not generated',
 ]
+
+
+def known_sigs(ctx):
+    from vlib import load_known
+    return load_known(ctx.pid)
 
 
 def replay(ctx, cases_file, label, corrupt_fn, min_cases):
@@ -29,8 +39,15 @@ def replay(ctx, cases_file, label, corrupt_fn, min_cases):
 
 
 def corrupt(case, rnd):
-    """Corrupt one compared prediction of a sandbox/delivery case."""
+    """Corrupt one compared prediction of a sandbox/delivery case (for a session: of one of its runs)."""
     c = copy.deepcopy(case)
+    if c.get('fam') == 'session':
+        k = rnd.randrange(len(c['runs']))
+        r = corrupt(dict(fam='sandbox', cfg=c['runs'][k]['cfg'], acts=c['runs'][k]['acts'], pred=c['runs'][k]['pred']), rnd)
+        if r is None:
+            return None
+        c['runs'][k]['pred'] = r['pred']
+        return c
     p = c['pred']
     if p.get('onlyErr'):
         return corrupt_failure(case, rnd)
@@ -56,10 +73,74 @@ def corrupt(case, rnd):
     return c
 
 
+def split_cases(ctx, src, dst, keep):
+    """Write the exported cases for which keep(case) holds to dst; returns how many."""
+    n = 0
+    with open(ctx.path(src)) as f, open(ctx.path(dst), 'w') as g:
+        for line in f:
+            if keep(json.loads(line)):
+                g.write(line)
+                n += 1
+    return n
+
+
+def has_sys_child(case):
+    return 'pred' in case and any(k.get('sys') for k in case['pred']['stdout']['kids']) and case['pred']['stdoutJudged']
+
+
+def has_nonreader_close(case):
+    return 'pred' in case and any(a.get('op') == 'close' and a.get('name') == 'exit3' for a in case['acts']) and \
+        any(n['k'] == 'close' and n['j'] and n['v'] == 3 for n in case['pred']['notes'])
+
+
+def corrupt_new_delivery(case, rnd):
+    """Corruptions aimed at what the newer parts of the model predict: what a system() child shows of a file, and the
+    exit status close() reports for a command that never reads."""
+    c = copy.deepcopy(case)
+    p = c['pred']
+    if has_sys_child(c) and (rnd.randrange(2) == 0 or not has_nonreader_close(c)):
+        for k in p['stdout']['kids']:
+            if k.get('sys'):
+                k['out'] = k['out'][:-1] if rnd.randrange(2) == 0 else k['out'] + [122]
+                return c
+    if has_nonreader_close(c):
+        for n in p['notes']:
+            if n['k'] == 'close' and n['j'] and n['v'] == 3:
+                n['v'] = -1
+                return c
+    return None
+
+
+def corrupt_session(case, rnd):
+    """Corrupt the prediction of the LAST run of a session (the one made under a changed configuration)."""
+    if case.get('fam') != 'session':
+        return None
+    c = copy.deepcopy(case)
+    r = c['runs'][-1]
+    p = r['pred']
+    if r['cfg']['custom'] and rnd.randrange(2) == 0:
+        if p['opens']:
+            p['opens'] = p['opens'][:-1]
+        else:
+            p['opens'] = [{'name': 'f2', 'mode': 'read'}]
+        return c
+    if p['errJudged']:
+        p['err'] = not p['err']
+        return c
+    p['starts'] = p['starts'] + ['cat']
+    return c
+
+
 def corrupt_failure(case, rnd):
     c = copy.deepcopy(case)
+    if not c['pred'].get('onlyErr'):
+        # the control of the failure family (the writer never fails): everything written must arrive
+        if not c['pred']['stdoutJudged']:
+            return None
+        c['pred']['stdout']['prog'] = c['pred']['stdout']['prog'] + [122]
+        return c
     # corrupt only where the real tree agrees with the spec, so that the rejection is due to the corruption
-    if c['cfg']['buffered']:
+    if c['cfg']['wkind'] != 'plain':
         return None
     c['pred']['err'] = not c['pred']['err']
     return c
@@ -105,11 +186,18 @@ def corrupt_event(ev, rnd):
     if not obs:
         return None
     if e['act']['op'] == 'end':
-        obs['starts'] = obs['starts'] + ['cat']
+        if rnd.randrange(3) == 0:
+            obs['stale'] = obs['stale'] + [{'name': 'f1', 'mode': 'read'}]
+        else:
+            obs['starts'] = obs['starts'] + ['cat']
         return e
     if e['act']['op'] == 'config':
         return None
-    obs['opens'] = obs['opens'] + [{'name': 'f3', 'mode': 'trunc'}]
+    # calls of the open-file function are only observable, and compared, when the run has a custom one
+    if obs.get('custom') and rnd.randrange(2) == 0:
+        obs['opens'] = obs['opens'] + [{'name': 'f3', 'mode': 'trunc'}]
+    else:
+        obs['notes'] = obs['notes'] + [{'k': 'close', 'v': 0, 's': []}]
     return e
 
 
